@@ -130,7 +130,18 @@ def st_idiom(draw, allow_load_q=False):
         return out
 
     stress = nq >= 3 and draw(st.integers(0, 9)) == 0
-    if stress:
+    full16 = nq >= 3 and not stress and draw(st.integers(0, 11)) == 0
+    if full16:
+        # the program names every one of the 16 Q registers: nothing is left to borrow for a carbon-carbon gate, so the
+        # transpiler may decline ("Could not find free register") but must not take a register that is in use
+        body = [f"set Q{i} {draw(st.integers(0, nq - 1))}" for i in range(16)]
+        ra, rb = draw(st.sampled_from([("Q3", "Q7"), ("Q15", "Q2"), ("Q4", "Q15"), ("Q0", "Q1")]))
+        body += [f"set {ra} 1", f"set {rb} 2", f"{draw(st.sampled_from(['cnot', 'cphase']))} {ra} {rb}"]
+        for r in ("Q15", "Q14", draw(st.sampled_from([f"Q{i}" for i in range(16)]))):
+            body += [f"{draw(st.sampled_from(GATES1))} {r}"]
+        info["cc"] = True
+        info["full16"] = True
+    elif stress:
         # many carbon-carbon gates in one subroutine
         body = []
         for _ in range(draw(st.integers(15, 20))):
@@ -159,6 +170,10 @@ def st_idiom(draw, allow_load_q=False):
         info["end_label"] = True
     outcomes = draw(st.lists(st.integers(0, 1), min_size=0, max_size=12))
     return {"kind": "idiom", "text": "\n".join(lines) + "\n", "prologue": prologue, "outcomes": outcomes, "nq": nq, "debug": draw(st.booleans()), "info": info}
+
+
+class Declined(Exception):
+    """the transpiler refused a program it has no resources for (not a violation)"""
 
 
 # ------------------------------------------------------------------ execution
@@ -214,6 +229,8 @@ def compare(case, subs_vanilla, debug: bool) -> Dict[str, Any]:
             import traceback
 
             fr = traceback.extract_tb(e.__traceback__)[-1]
+            if case.get("info", {}).get("full16") and isinstance(e, RuntimeError) and "free register" in str(e):
+                raise Declined("no Q register left to borrow")
             raise Failure(f"transpile-raises:{type(e).__name__}:{fr.name}", case, f"transpiling subroutine {k} raised {type(e).__name__}: {(str(e).splitlines() or [''])[0][:160]}")
         # what a controller receives
         try:
@@ -310,10 +327,15 @@ def shard(ctx: Ctx) -> None:
     n = 250 if ctx.tier == "quick" else 5000
 
     def body_idiom(case):
-        check(case)
+        try:
+            check(case)
+        except Declined as d:
+            stt.rejected["declined:" + str(d)] += 1
+            stt.evaluations += 1
+            return
         i = case["info"]
         nt = i["cc"] or i["end_label"] or i["ifs"] > 0
-        labels = ["idiom", f"nq:{case['nq']}", "debug" if case["debug"] else "nodebug"] + [k for k in ("cc", "end_label", "stress", "label_at_0", "load_single") if i.get(k)] + (["loop"] if i["loops"] else []) + (["if"] if i["ifs"] else [])
+        labels = ["idiom", f"nq:{case['nq']}", "debug" if case["debug"] else "nodebug"] + [k for k in ("cc", "end_label", "stress", "label_at_0", "load_single", "full16") if i.get(k)] + (["loop"] if i["loops"] else []) + (["if"] if i["ifs"] else [])
         stt.case(str(case.get("prologue")) + case["text"] + str(case["outcomes"]) + str(case["debug"]), nt, labels, sample={"text": case["text"], "debug": case["debug"]} if len(case["text"]) < 700 else None)
 
     allow = KF_LOAD not in ctx.open_findings
@@ -341,7 +363,7 @@ def shard(ctx: Ctx) -> None:
 def replay(case):
     try:
         check(case)
-    except hp.OutOfDomainProgram:
+    except (hp.OutOfDomainProgram, Declined):
         return None
     except Failure as f:
         return f
